@@ -233,6 +233,19 @@ eval(struct expr *expr)
 			expr->kind = EXPRCONST;
 			expr->u.constant.u = istrue(c);
 			break;
+		case TDIV:
+		case TMOD:
+			if (l->kind != EXPRCONST || r->kind != EXPRCONST)
+				break;
+			if (l->type->prop & PROPINT) {
+				/* undefined; not a constant expression (and would trap here) */
+				if (r->u.constant.u == 0)
+					break;
+				if (l->type->u.basic.issigned && r->u.constant.i == -1 && l->u.constant.i == LLONG_MIN)
+					break;
+			}
+			binary(expr, expr->op, l, r);
+			break;
 		default:
 			if (l->kind != EXPRCONST || r->kind != EXPRCONST)
 				break;
